@@ -276,11 +276,18 @@ impl FromStr for HLCTimestamp {
             .and_then(|v| v.parse::<u8>().ok())
             .ok_or(InvalidFormat)?;
 
-        Ok(Self::new(
-            parts_as_duration(seconds, fractional),
-            counter,
-            node,
-        ))
+        if seconds > TIMESTAMP_MAX {
+            return Err(InvalidFormat);
+        }
+
+        // Fractional values above the documented range carry over into the seconds,
+        // which can push an otherwise valid value past the maximum.
+        let duration = parts_as_duration(seconds, fractional);
+        if duration.as_secs() > TIMESTAMP_MAX {
+            return Err(InvalidFormat);
+        }
+
+        Ok(Self::new(duration, counter, node))
     }
 }
 
